@@ -118,7 +118,7 @@ def vxi11 : Iface :=
 
 /-- `QMI_TransportDescriptorException` and its qmi base classes define no `__init__` / `__new__` / `__str__` / `__repr__`:
 constructing it from any message text cannot raise and keeps the text -/
-def descriptorExceptionPlain : Bool := false
+def descriptorExceptionPlain : Bool := true
 
 def env : Env :=
   { ifaces := [serial, udp, tcp, usbtmc, gpib, vxi11],
